@@ -158,6 +158,42 @@ pub fn decode(data: &[u8]) -> Result<Vec<u8>, HuffErr> {
     Ok(out)
 }
 
+/// What a bit-at-a-time walk over `data` finds, without judging it: the symbols completed
+/// (EOS is reported as 256 and the walk goes on), and the bits left over at the end.
+#[derive(Debug, Clone, PartialEq, Eq)]
+pub struct Walk {
+    pub symbols: Vec<usize>,
+    /// bits consumed since the last completed symbol
+    pub leftover_bits: u32,
+    pub leftover_all_ones: bool,
+}
+
+pub fn walk(data: &[u8]) -> Walk {
+    let t = trie();
+    let mut w = Walk { symbols: Vec::new(), leftover_bits: 0, leftover_all_ones: true };
+    let mut cur = 0usize;
+    for &byte in data {
+        for i in (0..8).rev() {
+            let bit = ((byte >> i) & 1) as usize;
+            w.leftover_bits += 1;
+            if bit == 0 {
+                w.leftover_all_ones = false;
+            }
+            match t.nodes[cur][bit] {
+                Child::Inner(idx) => cur = idx,
+                Child::Leaf(sym) => {
+                    w.symbols.push(sym);
+                    cur = 0;
+                    w.leftover_bits = 0;
+                    w.leftover_all_ones = true;
+                }
+                Child::Empty => panic!("Huffman code is not complete"),
+            }
+        }
+    }
+    w
+}
+
 fn unhex(s: &str) -> Vec<u8> {
     let digits: Vec<u8> = s
         .bytes()
